@@ -237,8 +237,8 @@ OUTER:
 // confident the classifier is in the result. A percentage of "1.0" indicates
 // an exact match, while a percentage of "0.0" indicates a complete mismatch.
 //
-// If the string is equidistant from multiple known values, it is undefined
-// which will be returned.
+// If the string is equidistant from multiple known values, the one whose key
+// sorts first is returned.
 func (c *Classifier) NearestMatch(s string) *Match {
 	pq := c.nearestMatch(s)
 	if pq.Len() == 0 {
@@ -293,9 +293,7 @@ func (m likelyMatches) Swap(i, j int)      { m[i], m[j] = m[j], m[i] }
 // nearest match at the beginning.
 func (c *Classifier) nearestMatch(unknown string) *pq.Queue {
 	var mu sync.Mutex // Protect the priority queue.
-	pq := pq.NewQueue(func(x, y interface{}) bool {
-		return x.(*Match).Confidence > y.(*Match).Confidence
-	}, nil)
+	pq := pq.NewQueue(matchOrder, nil)
 
 	unknown = c.normalize(unknown)
 	if len(unknown) == 0 {
@@ -304,20 +302,28 @@ func (c *Classifier) nearestMatch(unknown string) *pq.Queue {
 
 	c.muValues.RLock()
 	var likely likelyMatches
+	var exact *knownValue
 	for _, v := range c.values {
 		dr := diffRatio(unknown, v.normalizedValue)
 		if dr < c.MinDiffRatio {
 			continue
 		}
 		if unknown == v.normalizedValue {
-			// We found an exact match.
-			pq.Push(&Match{Name: v.key, Confidence: 1.0, Offset: 0, Extent: len(unknown)})
-			c.muValues.RUnlock()
-			return pq
+			// We found an exact match. If the same text is registered under
+			// several keys, report the first key, so that the answer doesn't
+			// depend on the order in which the map is iterated over.
+			if exact == nil || v.key < exact.key {
+				exact = v
+			}
+			continue
 		}
 		likely = append(likely, possibleMatch{value: v, diffRatio: dr})
 	}
 	c.muValues.RUnlock()
+	if exact != nil {
+		pq.Push(&Match{Name: exact.key, Confidence: 1.0, Offset: 0, Extent: len(unknown)})
+		return pq
+	}
 	sort.Sort(likely)
 
 	var wg sync.WaitGroup
@@ -359,10 +365,19 @@ func newMatcher(unknown string, threshold float64) *matcher {
 		unknown:     searchset.New(unknown, searchset.DefaultGranularity),
 		normUnknown: unknown,
 		threshold:   threshold,
-		queue: pq.NewQueue(func(x, y interface{}) bool {
-			return x.(*Match).Confidence > y.(*Match).Confidence
-		}, nil),
+		queue:       pq.NewQueue(matchOrder, nil),
 	}
+}
+
+// matchOrder orders the matches in a queue: the better match first, and among
+// equally good ones the one whose name sorts first, so that the order doesn't
+// depend on which goroutine delivered its match first.
+func matchOrder(x, y interface{}) bool {
+	mx, my := x.(*Match), y.(*Match)
+	if mx.Confidence != my.Confidence {
+		return mx.Confidence > my.Confidence
+	}
+	return mx.Name < my.Name
 }
 
 // findMatches takes a known text and finds all potential instances of it in
